@@ -177,3 +177,136 @@ Proof.
   { clear. induction F; simpl; [reflexivity|]. f_equal. exact IHF. }
   rewrite E. reflexivity.
 Qed.
+
+(* ---- calls with their arguments (Section Args of the model) ---- *)
+Section PA.
+Variable R : Type.
+Variable r0 : R.
+Variables leb ltb : R -> R -> bool.
+Variable interp : list R -> list R -> R -> R.
+
+Notation lower := (lower R r0 leb ltb interp).
+Notation run_args := (run_args R r0 leb ltb interp).
+Notation values_at := (values_at R r0 interp).
+
+Lemma values_at_length env a ys : length (values_at env a ys) = length (en_calf R env).
+Proof.
+  unfold C18MErrorModel.values_at. destruct (Nat.eqb (a_n R a) 1).
+  - apply repeat_length.
+  - destruct (a_fv R a); rewrite map_length; [reflexivity | apply seq_length].
+Qed.
+
+(* whatever the arguments, the lowered call is well formed for F = vn_frequencies *)
+Lemma lower_wf env a fresh : length fresh = length (en_calf R env) ->
+  call_wf R (length (en_calf R env)) (fresh, lower env a).
+Proof.
+  intros Hf. unfold call_wf. cbn [snd fst].
+  destruct (lower env a) as [| |nf tr] eqn:E; try exact I.
+  unfold C18MErrorModel.lower in E.
+  destruct (Nat.eqb (a_n R a) 0); [discriminate|].
+  destruct (a_nf R a) as [nfv|]; [|destruct (a_tr R a); discriminate].
+  repeat match type of E with (if ?c then _ else _) = _ => destruct c; [discriminate|] end.
+  inversion E; subst. split; [exact Hf|]. split; [apply values_at_length|].
+  destruct (a_tr R a); cbn; [apply values_at_length | exact I].
+Qed.
+
+Lemma run_args_as_run env h : forall st,
+  run_args true env st h = run R r0 true st (map (fun fa => (fst fa, lower env (snd fa))) h).
+Proof.
+  induction h as [|[f a] h IH]; intros st; [reflexivity|].
+  unfold C18MErrorModel.run_args, C18MErrorModel.run in *. cbn [fold_left map fst snd]. apply IH.
+Qed.
+
+Definition fresh_ok (env : menv R) (h : list (mvec R * margs R)) : Prop :=
+  Forall (fun fa => length (fst fa) = length (en_calf R env)) h.
+
+Lemma lowered_wf env h : fresh_ok env h ->
+  Forall (call_wf R (length (en_calf R env))) (map (fun fa => (fst fa, lower env (snd fa))) h).
+Proof.
+  induction 1 as [|[f a] h Hf _ IH]; cbn [map]; constructor; [|exact IH].
+  apply lower_wf. exact Hf.
+Qed.
+
+(* every history of calls, with any arguments (valid or not, any of the three kinds of grid, with or
+   without sigma_tr_vector, NULL / NULL): the stored vector is that of the last call that returned 0 *)
+Lemma run_args_last_effective env h st :
+  state_wf R (length (en_calf R env)) st -> fresh_ok env h ->
+  run_args true env st h =
+  last_effective R r0 (length (en_calf R env)) (map (fun fa => (fst fa, lower env (snd fa))) h) st.
+Proof.
+  intros Hs Hh. rewrite run_args_as_run. apply run_last_effective; [exact Hs | apply lowered_wf; exact Hh].
+Qed.
+
+Lemma run_args_app env st h1 h2 : run_args true env st (h1 ++ h2) = run_args true env (run_args true env st h1) h2.
+Proof. unfold C18MErrorModel.run_args. apply fold_left_app. Qed.
+
+Lemma run_args_wf env h st :
+  state_wf R (length (en_calf R env)) st -> fresh_ok env h ->
+  state_wf R (length (en_calf R env)) (run_args true env st h).
+Proof.
+  intros Hs Hh. rewrite run_args_as_run. apply run_wf; [exact Hs | apply lowered_wf; exact Hh].
+Qed.
+
+(* THE LAST CALL WINS: after any history on any earlier state, a call that is not rejected leaves what
+   the same call leaves on a structure that never saw another call (whatever malloc returned there) *)
+Lemma m_error_last_call_wins env h st a fresh fresh' :
+  state_wf R (length (en_calf R env)) st -> fresh_ok env h ->
+  length fresh = length (en_calf R env) -> length fresh' = length (en_calf R env) ->
+  lower env a <> MInvalid R ->
+  run_args true env st (h ++ [(fresh, a)]) = run_args true env None [(fresh', a)].
+Proof.
+  intros Hs Hh Hf Hf' Hv. rewrite run_args_app.
+  pose proof (run_args_wf env h st Hs Hh) as Hw.
+  set (s := run_args true env st h) in *. clearbody s.
+  unfold C18MErrorModel.run_args. cbn [fold_left fst snd]. unfold set_m_error_args.
+  pose proof (lower_wf env a fresh Hf) as W1. pose proof (lower_wf env a fresh' Hf') as W2.
+  destruct (lower env a) as [| |nf tr] eqn:E; [reflexivity | contradiction |].
+  rewrite (set_m_error_last_call_wins R r0 _ fresh s nf tr Hw W1).
+  rewrite (set_m_error_last_call_wins R r0 _ fresh' None nf tr I W2). reflexivity.
+Qed.
+
+(* a rejected call (return value -1) changes nothing *)
+Lemma m_error_rejected_call_ignored env h st a fresh :
+  lower env a = MInvalid R -> run_args true env st (h ++ [(fresh, a)]) = run_args true env st h.
+Proof.
+  intros E. rewrite run_args_app. unfold C18MErrorModel.run_args at 1. cbn [fold_left fst snd].
+  unfold set_m_error_args. rewrite E. reflexivity.
+Qed.
+
+(* NULL / NULL with frequencies >= 1 disables the model after any history *)
+Lemma m_error_disable env h st a fresh :
+  a_n R a <> 0 -> a_nf R a = None -> a_tr R a = None ->
+  run_args true env st (h ++ [(fresh, a)]) = None.
+Proof.
+  intros Hn Hnf Htr. rewrite run_args_app. unfold C18MErrorModel.run_args at 1. cbn [fold_left fst snd].
+  unfold set_m_error_args, C18MErrorModel.lower. rewrite Hnf, Htr.
+  destruct (Nat.eqb (a_n R a) 0) eqn:E; [apply Nat.eqb_eq in E; contradiction | reflexivity].
+Qed.
+End PA.
+
+(* the three kinds of grid, a rejected call and a disable in one history over numbers (order on nat,
+   "interpolation" = 100 + the frequency, calibration frequencies 10 20 30, admissible range [12, 28]):
+   set on an own grid with tracking; a call with a sigma_nf of 0 (rejected); set on the calibration grid
+   without tracking; then one point; NULL / NULL; one point again on a fresh vector *)
+Definition n_env : menv nat := {| en_calf := [10; 20; 30]; en_fvalid := true; en_lo := 12; en_hi := 28; en_full_s_ok := true |}.
+Definition n_run_args := run_args nat 0 Nat.leb Nat.ltb (fun _ _ f => 100 + f).
+Definition n_returns := returns nat 0 Nat.leb Nat.ltb (fun _ _ f => 100 + f).
+Example run_args_instance :
+  let junk := [(91, 92); (93, 94); (95, 96)] in
+  let h := [(junk, {| a_fv := Some [5; 40]; a_n := 2; a_nf := Some [1; 2]; a_tr := Some [3; 4] |});
+            (junk, {| a_fv := None; a_n := 3; a_nf := Some [1; 0; 2]; a_tr := None |});
+            (junk, {| a_fv := None; a_n := 3; a_nf := Some [6; 7; 8]; a_tr := None |})] in
+  fresh_ok nat n_env h /\
+  n_returns n_env h = [true; false; true] /\
+  n_run_args true n_env None (firstn 2 h) = Some [(110, 110); (120, 120); (130, 130)] /\
+  n_run_args true n_env None h = Some [(6, 0); (7, 0); (8, 0)] /\
+  n_run_args true n_env None (h ++ [(junk, {| a_fv := None; a_n := 1; a_nf := Some [9]; a_tr := Some [4] |})])
+    = Some [(9, 4); (9, 4); (9, 4)] /\
+  n_run_args true n_env None (h ++ [(junk, {| a_fv := None; a_n := 1; a_nf := None; a_tr := None |})]) = None /\
+  (* a grid that does not cover the calibration range is rejected *)
+  n_returns n_env [(junk, {| a_fv := Some [15; 40]; a_n := 2; a_nf := Some [1; 2]; a_tr := None |})] = [false] /\
+  (* without the "always init" loop the tracking term of the first call survives the third *)
+  n_run_args false n_env None h = Some [(6, 110); (7, 120); (8, 130)].
+Proof.
+  cbv zeta. split; [repeat constructor|]. repeat split; vm_compute; reflexivity.
+Qed.
